@@ -239,5 +239,27 @@ def check(run):
             run.check(who.startswith('m_queue.front()') or any('m_queue.front()' in d for d in defs), 'R4', 'size-measure', bs.norm, bs.loc(), 'the size used is not that of the front packet', 'size of the front packet')
     tw = [c for c in bs.calls() if (q.callee_name(c) or '').endswith('expires_at') and q.render(bs, c['args'][0]) == 'm_last_forward']
     run.check(bool(tw) and all(q.any_precedes(bs, [a.site for a in adds], c) for c in tw), 'R4', 'departure-timer', bs.norm, bs.loc(), 'the departure timer is not armed at m_last_forward after the serialisation time was added', 'expires_at(m_last_forward) after the +=')
+    run.clause('R14 clock resolution: every time quantity the hop stores is held at the resolution of the virtual clock, and no timing computation casts to a coarser unit (sub-tick latency would be truncated away)')
+    TICK = 'std::ratio<1, 1000000000>'
+    nt = 0
+    for r in fx.records.values():
+        if r.get('name') not in (Q, 'sim::timed_packet'):
+            continue
+        for f_ in r['fields']:
+            ct = f_.get('cty') or ''
+            if 'std::chrono::' not in ct:
+                continue
+            nt += 1
+            run.check(TICK in ct and ct.count('std::ratio<') == ct.count(TICK), 'R14', 'clock-resolution', '%s::%s' % (r['name'], f_['name']), '%s:%s' % (r.get('file', ''), f_.get('line', '')),
+                      'the time field %s is stored as %s, coarser than the virtual clock\'s tick: the sub-unit part of a configured latency is truncated, so packets cross the hop faster than latency + serialisation' % (f_['name'], ct),
+                      'held in clock ticks')
+    if nt < 3:
+        run.broke('fewer than 3 time-typed fields found in queue/timed_packet (%d)' % nt)
+    timing = [f_ for f_ in fx.repo_functions() if q.top_function(fx, f_).cls == Q and q.top_function(fx, f_).norm.split('::')[-1] != 'label']
+    for f_ in timing:
+        for x in q.flat_calls(f_, lambda g_, c: (q.callee_name(c) or '').endswith('duration_cast'), depth=1):
+            ty = x.owner.ty(x.call)
+            run.check(TICK in ty, 'R14', 'clock-resolution', '%s: %s' % (q.top_function(fx, f_).norm, q.render(x.owner, x.call)[:60]), x.owner.loc(x.call),
+                      'a timing computation of the hop casts a duration to %s, coarser than the clock tick (truncation of latency / serialisation time)' % ty, 'cast to clock ticks')
     run.floor('R10', 2)
     run.floor('R4', 3)
